@@ -17,6 +17,7 @@ RULE = ("operators: Pauli strings with <=3 factors on indices {0,7,12,123} x coe
         "coefficient map (Pauli strings are linearly independent), exact for simplified operators. Artefacts: measurement sets, expectation values (real/complex, "
         "0/1/2 frames), parities, value estimates (precision None/float/numpy), lists, layers, connectivity, ordering, measurement-count estimates, each through "
         "its own save/load with a path and (where accepted) an open file. non-trivial = operator with a non-real or non-unit coefficient or >= 2 terms / artefact with content")
+RULE += " Round 5: 3-5 distinct correlation frames; loaded measurement sets answer get_counts like the saved ones; layers / connectivity not in ascending order; a term's coefficient reassigned between serialisations."
 ASSUMPTIONS = ["|coefficient| < 1e15 (the printed form of larger floats contains '+')", "absent and empty correlation/covariance lists are the same zero-frame case"]
 BOUNDS = {"quick": {"strings": "<=4 factors", "sum_terms": "3 over 13 pool terms, 4 over 6"}, "thorough": {"strings": "<=4 factors", "sum_terms": "4 over 13 pool terms, 5 over 6"}}
 IDX = [0, 7, 12, 123]
